@@ -74,7 +74,9 @@ type frame struct {
 	panicVal  interface{}
 	symIfs    map[ssa.Instruction]int
 	pos       token.Pos
+	merged    []Val // phi values of the next block, precomputed by tryMerge
 }
+
 
 func (fr *frame) get(v ssa.Value) Val {
 	switch x := v.(type) {
@@ -267,6 +269,9 @@ func (fr *frame) runBlocks() {
 			return
 		}
 		if _, ok := r.(*goPanic); !ok {
+			if _, isEnd := r.(pathEnd); !isEnd && fr.in.crashStack == nil {
+				fr.in.crashStack = fr.in.stackTrace()
+			}
 			panic(r) // interpreter-level abort: propagate
 		}
 		fr.panicking = true
@@ -320,8 +325,13 @@ func (fr *frame) runBlock() {
 			}
 		}
 		tmp := make([]Val, nphi)
-		for i := 0; i < nphi; i++ {
-			tmp[i] = fr.get(b.Instrs[i].(*ssa.Phi).Edges[pi])
+		if fr.merged != nil && len(fr.merged) == nphi {
+			copy(tmp, fr.merged)
+			fr.merged = nil
+		} else {
+			for i := 0; i < nphi; i++ {
+				tmp[i] = fr.get(b.Instrs[i].(*ssa.Phi).Edges[pi])
+			}
 		}
 		for i := 0; i < nphi; i++ {
 			fr.set(b.Instrs[i].(*ssa.Phi), tmp[i])
@@ -498,6 +508,9 @@ func (fr *frame) visit(instr ssa.Instruction) bool {
 		} else {
 			if fr.symIfs == nil {
 				fr.symIfs = map[ssa.Instruction]int{}
+			}
+			if fr.tryMerge(ins, c) {
+				return true
 			}
 			fr.symIfs[ins]++
 			if fr.symIfs[ins] > in.W.Cfg.Unwind {
